@@ -279,7 +279,7 @@ class Ctx:
         for name, blk in zip(pas, results):
             if blk.startswith("Closed under"):
                 continue
-            axs = re.findall(r"^([A-Za-z0-9_'.]+)\s*:", blk, re.M)
+            axs = [a for a in re.findall(r"^([A-Za-z0-9_'.]+)\s*:", blk, re.M) if a != "Axioms"]   # "Axioms:" is the header
             for a in axs:
                 short = a.split(".")[-1]
                 if a in STDLIB_AXIOMS or short in {x.split(".")[-1] for x in STDLIB_AXIOMS}:
